@@ -107,6 +107,16 @@ class AbstractNDArray(ABC):
             return np.flipud(values)
         return values
 
+    @staticmethod
+    def pixel_scales_from_hdu_header(header):
+        """
+        The pixel scales stored in a .fits header by `pixel_scale_header`, which is a single `PIXSCALE` entry for
+        identical y and x pixel scales and separate `PIXSCALEY` and `PIXSCALEX` entries otherwise.
+        """
+        if "PIXSCALEY" in header and "PIXSCALEX" in header:
+            return (header["PIXSCALEY"], header["PIXSCALEX"])
+        return header["PIXSCALE"]
+
     @classmethod
     def instance_unflatten(cls, aux_data, children):
         """
